@@ -107,7 +107,7 @@ def parse_table(s, loc, tok):
         # will override one from settings
         init_dict['note'] = tok['note'][0]
     if 'indexes' in tok:
-        init_dict['indexes'] = tok['indexes'][0]
+        init_dict['indexes'] = [index for block in tok['indexes'] for index in block]
     if 'columns' in tok:
         init_dict['columns'] = tok['columns']
     if 'comment_before' in tok:
